@@ -168,7 +168,7 @@ def ensure_facts(repo=REPO):
 class Fn:
     __slots__ = ("d", "key", "pretty", "name", "crate", "file", "line_lo", "line_hi", "blocks",
                  "locals", "arg_count", "kind", "impl_self", "impl_trait", "derived", "from_expansion",
-                 "_succ", "_reach", "closure_args", "generic_of")
+                 "_succ", "_reach", "closure_args", "generic_of", "len_args")
 
     def __init__(self, d, crate):
         self.d = d
@@ -191,6 +191,7 @@ class Fn:
         self._reach = None
         self.closure_args = {}   # {parameter index: closure def path} for a copy specialised on closure arguments
         self.generic_of = None
+        self.len_args = {}       # {parameter index: (kind, n)} for a copy specialised on a list argument whose length is known
 
     def param_name(self, i):
         """i is 0-based argument index"""
@@ -275,12 +276,14 @@ class World:
             for u in d["unsafe"]:
                 self.unsafe.append((c, u))
 
-    def specialise(self, fn, cmap):
-        """copy of a generic workspace function bound to the closures passed for its closure-typed parameters
-        (looked up by pretty name only; never part of crate_fns)"""
-        if fn.closure_args:
+    def specialise(self, fn, cmap, lmap=None):
+        """copy of a workspace function bound to the closures passed for its closure-typed parameters and / or to the
+        known lengths of the literal lists passed for its slice parameters (looked up by pretty name only; never part of
+        crate_fns)"""
+        lmap = lmap or {}
+        if fn.closure_args or fn.len_args:
             return fn
-        suffix = "<" + ",".join("%d=%s" % (i, c) for i, c in sorted(cmap.items())) + ">"
+        suffix = "<" + ",".join(["%d=%s" % (i, c) for i, c in sorted(cmap.items())] + ["%d=len%d" % (i, n) for i, (_k, n) in sorted(lmap.items())]) + ">"
         f = self.by_pretty.get(fn.pretty + suffix)
         if f is None:
             d = dict(fn.d)
@@ -288,6 +291,7 @@ class World:
             d["pretty"] = fn.pretty + suffix
             f = Fn(d, fn.crate)
             f.closure_args = dict(cmap)
+            f.len_args = dict(lmap)
             f.generic_of = fn
             self.by_pretty[f.pretty] = f
             self.spec[f.key] = f
